@@ -224,8 +224,10 @@ def _use_cnls(
     fits: List[Tuple[int, Circuit]] = []
     # Daemonic processes (e.g., the workers used when evaluating several
     # log_F_ext values in parallel) are not allowed to have child processes.
+    # The fits are not safe to run concurrently in threads of one process, so
+    # a single worker thread is used in that case.
     pool_class = ThreadPool if current_process().daemon else Pool
-    with pool_class(num_procs) as pool:
+    with pool_class(num_procs if pool_class is Pool else 1) as pool:
         threshold: Optional[float] = None
         log_sum_abs_tau_var: Dict[int, float] = {}
         max_count: int = 5
